@@ -24,6 +24,7 @@ def generate(rng, tier="quick"):
     if rng.chance(0.12):
         tbl["xr_time"] = "var"
     cfg = wl.gen_config(rng, tbl, max_ctx=4, max_tests=3)
+    single = len(tbl["cols"]) == 1 and rng.chance(0.3)
     pool = STREAM_FES
     if tbl.get("unsorted"):
         # label slices need a monotonic index: XarrayStream is not given rows out of chronological order
@@ -59,6 +60,11 @@ def generate(rng, tier="quick"):
         scn["alt_on"] = rng.subset([f for f in fes if f != "qcconfig"], 0.6, at_least=1)
     if rng.chance(0.2):
         scn["twin_on"] = rng.subset([f for f in fes if f != "qcconfig"], 0.5, at_least=1)
+    sids = {e["sid"] for c in cfg["contexts"] + (scn.get("alt_config") or {"contexts": []})["contexts"] for e in c["entries"]}
+    if single and sids <= set(tbl["cols"]):
+        # NumpyStream given one bare array instead of a dict of arrays (it then serves every stream id,
+        # so only when the config names no other stream)
+        tbl["numpy_single"] = True
     for fe in fes:
         if fe == "qcconfig":
             continue
